@@ -476,14 +476,16 @@ static void Regress()
 
 // ======================================================================== mode=server
 namespace srv {
-enum { C_SERVER = 0, C_FACTORY, C_SESSION, C_CHILD };
+enum { C_SERVER = 0, C_FACTORY, C_SESSION, C_CHILD, C_POLICY };
 enum { S_DETACHED = 0, S_ATTACHED = 1, S_LIMBO = 2, S_GONE = 3 };     // limbo: EndSession()/RemoveAcceptFactory() called, not judged any more
-static const char * clsName[] = {"server", "factory", "session", "child"};
-struct Inst { int id, cls; PulseNode * node; uint64 req; bool valid; uint64 lastReturned, sched; int state, parent; bool ready; long fires, asks; };
+static const char * clsName[] = {"server", "factory", "session", "child", "policy"};
+struct Inst { int id, cls; PulseNode * node; uint64 req; bool valid; uint64 lastReturned, sched; int state, parent; bool ready; long fires, asks; int unserved; int pol[2]; bool begun; std::vector<int> holders; };   // ready: factory accepts / session is ready for input; pol: a session's input/output policy; holders: a policy's sessions
 static std::deque<Inst> insts;      // (references stay valid while the deque grows)
-static bool quietMode, snapshotDone, inLoop, minCheckable; static uint64 snapshotMin; static long snapshots;
+static bool quietMode, snapshotDone, inLoop, minCheckable, outputQueued; static uint64 snapshotMin, cycleBeganAt; static long snapshots;
 
-static int Status(int i) { for (int guard = 0; guard < 1000; guard++) { const Inst & x = insts[i]; if (x.state == S_LIMBO) return S_LIMBO; if (x.state == S_GONE) return S_DETACHED; if (x.cls != C_CHILD) return x.state; if (x.parent < 0 || x.state != S_ATTACHED) return S_DETACHED; i = x.parent; } return S_DETACHED; }
+static int Status(int i) { for (int guard = 0; guard < 1000; guard++) { const Inst & x = insts[i];
+   if (x.cls == C_POLICY) { if (x.holders.empty()) return S_DETACHED; for (size_t h = 0; h < x.holders.size(); h++) if (insts[x.holders[h]].state == S_ATTACHED) return S_ATTACHED; return S_LIMBO; }   // asked and pulsed while a session of the server holds it
+   if (x.state == S_LIMBO) return S_LIMBO; if (x.state == S_GONE) return S_DETACHED; if (x.cls != C_CHILD) return x.state; if (x.parent < 0 || x.state != S_ATTACHED) return S_DETACHED; i = x.parent; } return S_DETACHED; }
 static std::string Name(const Inst & x) { return vh::fmt("%s#%d", clsName[x.cls], x.id); }
 static uint64 PickReq(uint64 t) { switch (R(7)) { case 0: return NEVER; case 1: return t > 3000 ? t - R(3000) : 0; case 2: return t + R(300); default: return t + R(30000); } }
 
@@ -496,6 +498,7 @@ static void Snapshot()
       if (!x.valid) { Fail(std::string("server|node_not_asked_before_wait|") + clsName[x.cls], vh::fmt("%s is attached%s and its GetPulseTime() was not called before the server waited (wants %s)", Name(x).c_str(), x.cls == C_FACTORY ? (x.ready ? ", accepting" : ", NOT ready to accept sessions") : "", T(x.req).c_str())); return; }
       if (x.lastReturned < snapshotMin) snapshotMin = x.lastReturned;
       if (x.cls == C_FACTORY && !x.ready && x.lastReturned != NEVER) vh::stat("factory_nodes_not_ready_wanting_pulse");
+      if (x.cls == C_POLICY && !x.begun && x.lastReturned != NEVER) vh::stat("policy_nodes_without_ready_holder_wanting_pulse");
    }
 }
 static void SAction(Inst * self);
@@ -536,21 +539,34 @@ static void Fire(Inst & x, uint64 cb, uint64 sa)
 class Srv : public ReflectServer { public: int inst;
    virtual uint64 GetPulseTime(const PulseArgs & a) { if (ReflectServer::GetPulseTime(a) != NEVER) minCheckable = false; return Ask(insts[inst], a.GetCallbackTime(), a.GetScheduledTime()); }
    virtual void Pulse(const PulseArgs & a) { ReflectServer::Pulse(a); Fire(insts[inst], a.GetCallbackTime(), a.GetScheduledTime()); }
-   virtual void EventLoopCycleBegins() { snapshotDone = false; vh::stat("server_cycles"); }
-   virtual void EventLoopCycleEnds() { if (!snapshotDone && !caseBad) Snapshot(); } };
+   virtual void EventLoopCycleBegins() { snapshotDone = false; cycleBeganAt = GetRunTime64(); for (size_t i = 0; i < insts.size(); i++) insts[i].begun = false; vh::stat("server_cycles"); }
+   virtual void EventLoopCycleEnds() {
+      if (!snapshotDone && !caseBad) Snapshot();
+      // spin guard in logical terms: a root-level node (no deferral exists for those) that has been asked, is due since before this cycle began and is
+      // still waiting after the cycle's pulses, three cycles in a row
+      for (size_t i = 0; i < insts.size() && !caseBad; i++) { Inst & x = insts[i];
+         if (x.cls != C_CHILD && Status((int)i) == S_ATTACHED && x.valid && x.lastReturned <= cycleBeganAt) { if (++x.unserved >= 3) Fail(std::string("server|due_node_not_served_in_3_consecutive_cycles|") + clsName[x.cls], vh::fmt("%s asked for %s and was not pulsed in three event loop cycles that began after that time", Name(x).c_str(), T(x.lastReturned).c_str())); }
+         else x.unserved = 0; } } };
 class Fac : public ReflectSessionFactory { public: int inst;
    virtual AbstractReflectSessionRef CreateSession(const String &, const IPAddressAndPort &) { return AbstractReflectSessionRef(); }
    virtual bool IsReadyToAcceptSessions() const { return insts[inst].ready; }
    virtual uint64 GetPulseTime(const PulseArgs & a) { if (ReflectSessionFactory::GetPulseTime(a) != NEVER) minCheckable = false; return Ask(insts[inst], a.GetCallbackTime(), a.GetScheduledTime()); }
    virtual void Pulse(const PulseArgs & a) { ReflectSessionFactory::Pulse(a); Fire(insts[inst], a.GetCallbackTime(), a.GetScheduledTime()); } };
 class Ses : public DumbReflectSession { public: int inst;
+   virtual bool IsReadyForInput() const { return insts[inst].ready && DumbReflectSession::IsReadyForInput(); }
    virtual uint64 GetPulseTime(const PulseArgs & a) { if (DumbReflectSession::GetPulseTime(a) != NEVER) minCheckable = false; return Ask(insts[inst], a.GetCallbackTime(), a.GetScheduledTime()); }
    virtual void Pulse(const PulseArgs & a) { DumbReflectSession::Pulse(a); Fire(insts[inst], a.GetCallbackTime(), a.GetScheduledTime()); } };
+class Pol : public AbstractSessionIOPolicy { public: int inst;
+   virtual void PolicyHolderAdded(const PolicyHolder &) {} virtual void PolicyHolderRemoved(const PolicyHolder &) {}
+   virtual void BeginIO(uint64) { insts[inst].begun = true; } virtual void EndIO(uint64) {}
+   virtual bool OkayToTransfer(const PolicyHolder &) { return true; } virtual uint32 GetMaxTransferChunkSize(const PolicyHolder &) { return MUSCLE_NO_LIMIT; } virtual void BytesTransferred(const PolicyHolder &, uint32) {}
+   virtual uint64 GetPulseTime(const PulseArgs & a) { if (AbstractSessionIOPolicy::GetPulseTime(a) != NEVER) minCheckable = false; return Ask(insts[inst], a.GetCallbackTime(), a.GetScheduledTime()); }
+   virtual void Pulse(const PulseArgs & a) { AbstractSessionIOPolicy::Pulse(a); Fire(insts[inst], a.GetCallbackTime(), a.GetScheduledTime()); } };
 class Kid : public PulseNode { public: int inst;
    virtual uint64 GetPulseTime(const PulseArgs & a) { return Ask(insts[inst], a.GetCallbackTime(), a.GetScheduledTime()); }
    virtual void Pulse(const PulseArgs & a) { Fire(insts[inst], a.GetCallbackTime(), a.GetScheduledTime()); } };
 
-static Inst & NewInst(int cls, PulseNode * n) { Inst x; x.id = (int)insts.size(); x.cls = cls; x.node = n; x.req = PickReq(GetRunTime64()); x.valid = false; x.lastReturned = x.sched = NEVER; x.state = S_DETACHED; x.parent = -1; x.ready = true; x.fires = x.asks = 0; insts.push_back(x); return insts.back(); }
+static Inst & NewInst(int cls, PulseNode * n) { Inst x; x.id = (int)insts.size(); x.cls = cls; x.node = n; x.req = PickReq(GetRunTime64()); x.valid = false; x.lastReturned = x.sched = NEVER; x.state = S_DETACHED; x.parent = -1; x.ready = true; x.fires = x.asks = 0; x.unserved = 0; x.pol[0] = x.pol[1] = -1; x.begun = false; insts.push_back(x); return insts.back(); }
 static bool InChain(int anc, int i) { for (int guard = 0; i >= 0 && guard < 1000; guard++) { if (i == anc) return true; i = insts[i].cls == C_CHILD ? insts[i].parent : -1; } return false; }
 static int DepthOf(int i) { int d = 0; while (insts[i].cls == C_CHILD && insts[i].parent >= 0 && d < 100) { i = insts[i].parent; d++; } return d; }
 static Inst * PickInst(int cls /* -1 any */) { for (int t = 0; t < 16; t++) { Inst & x = insts[R((uint32)insts.size())]; if (x.state != S_GONE && (cls < 0 || x.cls == cls)) return &x; } return NULL; }
@@ -567,7 +583,9 @@ static void SAction(Inst * self)
       Op(vh::fmt("%sattach %s under %s", where, Name(*k).c_str(), Name(*p).c_str()));
       p->node->PutPulseChild(k->node); if (k->parent >= 0) k->valid = false; k->parent = p->id; k->state = S_ATTACHED; vh::stat(std::string(where) + "srv_op_attach_child"); }
    else if (o < 72) { Inst * k = PickInst(C_CHILD); if (!k || k->parent < 0 || (self && InChain(k->id, self->id))) return; DetachKid(*k, where); }
-   else if (o < 80) { Inst * f = PickInst(C_FACTORY); if (!f) return; f->ready = !f->ready; Op(vh::fmt("%s%s ready=%d", where, Name(*f).c_str(), (int)f->ready)); vh::stat(std::string(where) + "srv_op_toggle_factory_ready"); }
+   else if (o < 78) { Inst * f = PickInst(C_FACTORY); if (!f) return; f->ready = !f->ready; Op(vh::fmt("%s%s ready=%d", where, Name(*f).c_str(), (int)f->ready)); vh::stat(std::string(where) + "srv_op_toggle_factory_ready"); }
+   else if (o < 84) { Inst * x = PickInst(C_SESSION); if (!x) return; x->ready = !x->ready; Op(vh::fmt("%s%s ready for input=%d", where, Name(*x).c_str(), (int)x->ready)); vh::stat(std::string(where) + "srv_op_toggle_session_ready_for_input"); }
+   else if (o < 90) { Inst * x = PickInst(C_SESSION); if (!x || x->state != S_ATTACHED) return; Op(vh::fmt("%s%s gets an outgoing Message", where, Name(*x).c_str())); outputQueued = true; (void)static_cast<Ses *>(x->node)->AddOutgoingMessage(GetMessageFromPool(1234)); vh::stat(std::string(where) + "srv_op_session_output_busy"); }
    else if (self) { self->req = PickReq(t); Op(vh::fmt("cb:next time of %s = %s", Name(*self).c_str(), T(self->req).c_str())); }
 }
 
@@ -582,10 +600,21 @@ struct Bench {
       Ses * s = new Ses; AbstractReflectSessionRef r(s); Inst & x = NewInst(C_SESSION, s); s->inst = x.id;
       if (server.AddNewSession(r, a).IsError()) { fprintf(stderr, "HARNESS-ABORT: AddNewSession\n"); exit(2); }
       x.state = S_ATTACHED; sess.push_back(r); peers.push_back(b); Op(vh::fmt("session %s req=%s", Name(x).c_str(), T(x.req).c_str())); vh::stat("server_sessions"); }
+   std::vector<AbstractSessionIOPolicyRef> pols;
+   void AddPolicy() {
+      Inst * sx = PickInst(C_SESSION); if (!sx || sx->state != S_ATTACHED) return; const int slot = (int)R(2); if (sx->pol[slot] >= 0) return;
+      Inst * px = NULL;
+      if (R(3) == 0) { px = PickInst(C_POLICY); }                       // share an existing policy (other session, or the other direction)
+      if (!px) { Pol * p = new Pol; pols.push_back(AbstractSessionIOPolicyRef(p)); px = &NewInst(C_POLICY, p); p->inst = px->id; vh::stat("policy_nodes"); }
+      Ses * ses = static_cast<Ses *>(sx->node); AbstractSessionIOPolicyRef ref; for (size_t i = 0; i < pols.size(); i++) if (pols[i]() == static_cast<Pol *>(px->node)) ref = pols[i];
+      if (slot == 0) ses->SetInputPolicy(ref); else ses->SetOutputPolicy(ref);
+      sx->pol[slot] = px->id; px->holders.push_back(sx->id); Op(vh::fmt("%s is the %s policy of %s (req=%s)", Name(*px).c_str(), slot ? "output" : "input", Name(*sx).c_str(), T(px->req).c_str())); vh::stat(slot ? "policy_set_as_output_policy" : "policy_set_as_input_policy"); }
    void AddKid() { Kid * k = new Kid; Inst & x = NewInst(C_CHILD, k); k->inst = x.id; kids.push_back(k); Inst * p = PickInst(-1);
       if (p && p->state != S_LIMBO && DepthOf(p->id) < 4 && p->id != x.id) { p->node->PutPulseChild(k); x.parent = p->id; x.state = S_ATTACHED; Op(vh::fmt("child %s under %s req=%s", Name(x).c_str(), Name(*p).c_str(), T(x.req).c_str())); if (p->cls == C_SESSION) vh::stat("session_child_nodes"); }
       vh::stat("server_child_nodes"); }
-   void CheckMin(uint64 next, const char * what) { if (caseBad || !minCheckable) return; if (next != snapshotMin) Fail(next < snapshotMin ? "server|wakeup_time_too_early" : "server|wakeup_time_too_late", vh::fmt("%s reported the next pulse time %s, the minimum over the attached nodes' answers is %s", what, T(next).c_str(), T(snapshotMin).c_str())); }
+   void CheckMin(uint64 next, const char * what) { if (caseBad || !minCheckable) return;
+      if (next < snapshotMin && outputQueued) { vh::stat("unspecified_wakeup_earlier_than_every_pulse_time_with_session_output_pending"); return; }   // the server also wakes for output stall limits (not pulse nodes)
+      if (next != snapshotMin) Fail(next < snapshotMin ? "server|wakeup_time_too_early" : "server|wakeup_time_too_late", vh::fmt("%s reported the next pulse time %s, the minimum over the attached nodes' answers is %s", what, T(next).c_str(), T(snapshotMin).c_str())); }
    void Single() { uint64 next = 0; Op("STEP ServerProcessLoop(0)"); inLoop = true; status_t r = server.ServerProcessLoop(0, &next); inLoop = false; vh::stat("server_single_steps"); if (r.IsError()) Fail("server|ServerProcessLoop_error", r()); CheckMin(next, "ServerProcessLoop(0)"); }
    void Timed() {
       const uint64 runUntil = GetRunTime64() + 40000 + R(20001); uint64 next = 0; Op(vh::fmt("RUN ServerProcessLoop(until %s)", T(runUntil).c_str()));
@@ -596,9 +625,9 @@ struct Bench {
       quietMode = true; if (!caseBad) Single(); if (!caseBad) Single(); quietMode = false;
       for (size_t i = 0; i < insts.size() && !caseBad; i++) { const Inst & x = insts[i]; if (Status((int)i) == S_ATTACHED && x.valid && x.lastReturned <= runUntil) Fail(std::string("server|due_node_not_served_when_loop_returned|") + clsName[x.cls], vh::fmt("%s asked for %s, ServerProcessLoop(%s) returned and a quiet cycle ran, it has not fired", Name(x).c_str(), T(x.lastReturned).c_str(), T(runUntil).c_str())); }
    }
-   void Finish() { server.Cleanup(); facs.clear(); sess.clear(); peers.clear(); for (size_t i = 0; i < kids.size(); i++) delete kids[i]; kids.clear(); }
+   void Finish() { server.Cleanup(); facs.clear(); sess.clear(); pols.clear(); peers.clear(); for (size_t i = 0; i < kids.size(); i++) delete kids[i]; kids.clear(); }
 };
-static void ResetCase(uint64_t cs) { g = vh::Rng(cs); trace.clear(); caseBad = false; insts.clear(); quietMode = false; snapshotDone = true; inLoop = false; minCheckable = true; snapshots = 0; snapshotMin = NEVER; }
+static void ResetCase(uint64_t cs) { g = vh::Rng(cs); trace.clear(); caseBad = false; insts.clear(); quietMode = false; snapshotDone = true; inLoop = false; minCheckable = true; outputQueued = false; snapshots = 0; snapshotMin = NEVER; }
 
 static void RunServerCase(long k, uint64_t cs)
 {
@@ -608,6 +637,7 @@ static void RunServerCase(long k, uint64_t cs)
       Inst & sx = NewInst(C_SERVER, &b.server); b.server.inst = sx.id; sx.state = S_ATTACHED;
       const int nf = 1 + (int)R(3); for (int i = 0; i < nf; i++) b.AddFactory(R(2) != 0, 0, false);
       const int ns = 1 + (int)R(4); for (int i = 0; i < ns; i++) b.AddSession();
+      const int np = (int)R(5); for (int i = 0; i < np; i++) b.AddPolicy();
       const int nk = (int)R(9); for (int i = 0; i < nk; i++) b.AddKid();
       int timedLeft = 2 + (int)R(2); const int steps = 6 + (int)R(8);
       for (int s = 0; s < steps && !caseBad; s++) {
@@ -616,7 +646,8 @@ static void RunServerCase(long k, uint64_t cs)
             const uint32 o = R(100);
             if (o < 70) SAction(NULL);
             else if (o < 78 && b.sess.size() < 8) b.AddSession();
-            else if (o < 88 && b.kids.size() < 16) b.AddKid();
+            else if (o < 84 && b.kids.size() < 16) b.AddKid();
+            else if (o < 88 && b.pols.size() < 8) b.AddPolicy();
             else if (o < 92) { Inst * x = PickInst(C_SESSION); if (x && x->state == S_ATTACHED) { Op(vh::fmt("EndSession %s", Name(*x).c_str())); x->state = S_LIMBO; static_cast<Ses *>(x->node)->EndSession(); vh::stat("srv_op_end_session"); } }
             else if (o < 95 && b.facs.size() > 1) { const size_t fi = R((uint32)b.facs.size()); Inst & x = insts[b.facInst[fi]]; if (x.state == S_ATTACHED) { Op(vh::fmt("RemoveAcceptFactory %s", Name(x).c_str())); x.state = S_LIMBO; (void)b.server.RemoveAcceptFactory(b.ports[fi], localhostIP); vh::stat("srv_op_remove_factory"); } }
          }
@@ -648,6 +679,26 @@ static void RegressNotReadyFactory()
    }
    insts.clear(); vh::distinct(11);
 }
+// the second seeded scenario: the output policy of a connected session with nothing to send wants a pulse (no holder is ready, so BeginIO() is not called)
+static void RegressIdleOutputPolicy()
+{
+   vh::begin_case(11); ResetCase(78);
+   {
+      Bench b; b.server.SetDoLogging(false);
+      Inst & sx = NewInst(C_SERVER, &b.server); b.server.inst = sx.id; sx.state = S_ATTACHED; sx.req = NEVER;
+      b.AddSession(); insts[1].req = NEVER;
+      for (int t = 0; t < 50 && b.pols.empty(); t++) b.AddPolicy();
+      if (b.pols.empty()) { fprintf(stderr, "HARNESS-ABORT: no policy\n"); exit(2); }
+      Inst & px = insts[2]; if (insts[1].pol[1] != px.id) { Ses * ses = static_cast<Ses *>(insts[1].node); if (insts[1].pol[0] == px.id) { ses->SetInputPolicy(AbstractSessionIOPolicyRef()); insts[1].pol[0] = -1; } ses->SetOutputPolicy(b.pols[0]); insts[1].pol[1] = px.id; }
+      px.req = GetRunTime64() + 5000;
+      quietMode = true;
+      b.Single();
+      if (!caseBad) b.Timed();
+      if (!caseBad && px.fires != 1) Fail("regress|idle_output_policy_must_be_pulsed", vh::fmt("the policy fired %ld times, expected once", px.fires));
+      b.Finish();
+   }
+   insts.clear(); vh::distinct(12);
+}
 }  // namespace srv
 
 int main(int argc, char ** argv)
@@ -657,7 +708,7 @@ int main(int argc, char ** argv)
    vh::Ctx & c = vh::ctx();
    optStackInvalidate = vh::optl("gpt_stack_invalidate", 0) != 0;
    (void)SetConsoleLogLevel(MUSCLE_LOG_NONE);
-   if (vh::opt("mode", "model") == "regress") { Regress(); srv::RegressNotReadyFactory(); return vh::finish(); }
+   if (vh::opt("mode", "model") == "regress") { Regress(); srv::RegressNotReadyFactory(); srv::RegressIdleOutputPolicy(); return vh::finish(); }
    if (vh::opt("mode", "model") == "server") { for (long k = c.from; k < c.from + c.cases; k++) { vh::begin_case(k); srv::RunServerCase(k, vh::case_seed(c.seed, 2002, (uint64_t)k)); } return vh::finish(); }
    for (long k = c.from; k < c.from + c.cases; k++) { vh::begin_case(k); RunCase(k, vh::case_seed(c.seed, 2001, (uint64_t)k)); }
    return vh::finish();
